@@ -337,7 +337,7 @@ pub fn gen_c08(sh: &mut Shards, o: &Opts) -> serde_json::Value {
         };
         if n == 8 {
             // all 2^24 triples in thorough; every 3rd code per axis (random phase per axis) in quick
-            let (step, ph) = if o.thorough { (1u32, [0u32; 3]) } else { (3u32, [rng.below(3) as u32, rng.below(3) as u32, rng.below(3) as u32]) };
+            let (step, ph) = if o.thorough { (1u32, [0u32; 3]) } else if o.mini { (17u32, [rng.below(17) as u32, rng.below(17) as u32, rng.below(17) as u32]) } else { (3u32, [rng.below(3) as u32, rng.below(3) as u32, rng.below(3) as u32]) };
             let mut y = ph[0];
             while y < 256 {
                 let mut u = ph[1];
@@ -357,7 +357,7 @@ pub fn gen_c08(sh: &mut Shards, o: &Opts) -> serde_json::Value {
         let mid = (total / 2) as u16;
         let maxc = (total - 1) as u16;
         let anchors_other: [[u16; 2]; 5] = [[mid, mid], [0, 0], [maxc, maxc], [0, maxc], [maxc, 0]];
-        for a in anchors_other {
+        for a in anchors_other.iter().take(if o.mini { 1 } else { 5 }) {
             for s in 0..total {
                 let s = s as u16;
                 push([s, a[0], a[1]], &mut batch, &mut tab, &mut bad);
@@ -366,7 +366,7 @@ pub fn gen_c08(sh: &mut Shards, o: &Opts) -> serde_json::Value {
                 triples += 3;
             }
         }
-        let nr: u64 = if o.thorough { 4_000_000 } else { 200_000 };
+        let nr: u64 = if o.thorough { 4_000_000 } else if o.mini { 10_000 } else { 200_000 };
         for _ in 0..nr {
             push([rng.below(u64::from(total)) as u16, rng.below(u64::from(total)) as u16, rng.below(u64::from(total)) as u16], &mut batch, &mut tab, &mut bad);
             triples += 1;
